@@ -297,7 +297,16 @@ func runEntry(op string, data []byte) (ans string) {
 	if f == nil {
 		return "bad-op"
 	}
-	return errCode(f(data))
+	err := f(data)
+	if err != nil {
+		// the error a call hands back is part of its answer: it can be read (rendering it must not panic either)
+		_ = err.Error()
+		_ = fmt.Sprintf("%v|%+v", err, err)
+		for u := errors.Unwrap(err); u != nil; u = errors.Unwrap(u) {
+			_ = u.Error()
+		}
+	}
+	return errCode(err)
 }
 
 // ---------------------------------------------------------------------------------------------
